@@ -30,6 +30,7 @@ enum Op : int {
     OP_PRINT,
     OP_FILL_GAPS,      // i0 value seed : replace every empty stored frame by a conforming one ("complete frames")
     OP_BULK_FRAMES,    // i0 count, i1 value seed : append count conforming frames (no per-frame observation)
+    OP_FRAME_DUP,      // i0 source frame (mod), i1 index mode, i2 raw : hand one of the object's OWN stored frames back to frame() (duplicate it)
     OP_PARAM_EDIT,     // i0 group (mod), i1 parameter (mod), i2 edit kind ; s0 new description : copy a parameter OUT of the object, edit it through its setters, hand it back
     OP_NOPS
 };
